@@ -551,8 +551,18 @@ def s_vec_push(I, w, frame, site, fn, args, term):
     if root is None:
         return None
     sv = w.mem[root]
-    I.rec(frame, site[1], 'event', site, ('vec_push', root, args[1], I.partition(w)))
-    w.mem[root] = ('seq', sv[1] + 1, sv[2], sv[3] + ((sv[1], args[1]),), sv[4], sv[5])
+    cap = sv[5]
+    if cap is None:
+        a = ATOMS.fresh('capacity', 0, AI.ISIZE_MAX, key=('cap', root))
+        w.store = w.store.add(le(sv[1], Lin.atom(a)))
+        cap = Lin.atom(a)
+    I.rec(frame, site[1], 'event', site, ('vec_push', root, args[1], I.partition(w), w.fork(), sv[1], cap))
+    if not w.store.entails(le(sv[1] + 1, cap)):
+        # pushing onto a full vector reallocates: the capacity afterwards is some larger value
+        g = ATOMS.fresh('capacity', 0, AI.ISIZE_MAX, defn=('grown', root, Obj.fresh()))
+        w.store = w.store.add(le(sv[1] + 1, Lin.atom(g)), le(cap, Lin.atom(g)))
+        cap = Lin.atom(g)
+    w.mem[root] = ('seq', sv[1] + 1, sv[2], sv[3] + ((sv[1], args[1]),), sv[4], cap)
     return [(w, UNIT)]
 
 
